@@ -3149,3 +3149,186 @@ func checkC12ValuesAll(c *Ctx) {
 	}
 	r.Check(len(apps) > 0 && bad == 0, f.Name(), "values of every argument", loop.Pos(), "appended on every iteration path", "an iteration over the arguments can complete without appending that argument's key values to the returned list: targets named in a later argument are left out of the IN (...) list - Delete keeps their link, Replace removes the rows it has just inserted")
 }
+
+// C15.limit-merge: LIMIT and OFFSET live in ONE clause; Limit(n) and Offset(n) - also with the cancelling negative
+// values - merge a clause.Limit that sets only their own part (clause.Limit.MergeClause keeps the other).  Decided
+// by path enumeration of (*DB).Limit and (*DB).Offset: every path adds a clause.Limit through AddClause, and neither
+// method deletes from or stores into Statement.Clauses itself.
+func checkC15LimitMerge(c *Ctx) {
+	p := c.P
+	r := c.Rule("C15.limit-merge", "Limit/Offset always merge a clause.Limit and never remove the shared LIMIT/OFFSET clause", 2)
+	stmtT := p.Named(pkgGorm, "Statement")
+	addClause := p.Method(stmtT, "AddClause")
+	clausesF := p.Field(stmtT, "Clauses")
+	limitT := p.Named(pkgClause, "Limit")
+	for _, name := range []string{"Limit", "Offset"} {
+		f := p.MethodDecl(pkgGorm, "DB", name)
+		c.Touch(f)
+		info := f.Pkg.TypesInfo
+		direct := false
+		ast.Inspect(f.Body, func(n ast.Node) bool {
+			switch x := n.(type) {
+			case *ast.CallExpr:
+				if id, ok := x.Fun.(*ast.Ident); ok && id.Name == "delete" && len(x.Args) == 2 && fieldSel(info, x.Args[0], clausesF) {
+					direct = true
+				}
+			case *ast.AssignStmt:
+				for _, l := range x.Lhs {
+					if ix, ok := unparen(l).(*ast.IndexExpr); ok && fieldSel(info, ix.X, clausesF) {
+						direct = true
+					}
+				}
+			}
+			return true
+		})
+		var adds []*ast.CallExpr
+		for _, call := range callsIn(f) {
+			if fn, _ := typeutil.Callee(info, call).(*types.Func); fn == addClause && len(call.Args) == 1 && types.Identical(info.TypeOf(call.Args[0]), limitT) {
+				adds = append(adds, call)
+			}
+		}
+		paths, ok := p.EnumPaths(f, nil, 2000)
+		if !ok {
+			r.Unknown(f.Name(), "paths", f.Body.Pos(), "too many paths")
+			continue
+		}
+		bad := 0
+		for _, pr := range paths {
+			k := 0
+			for _, nd := range pr.Nodes {
+				for _, a := range adds {
+					if containsNode(nd, a) {
+						k++
+					}
+				}
+			}
+			if k != 1 {
+				bad++
+			}
+		}
+		r.Check(!direct && len(paths) > 0 && bad == 0, f.Name(), "merges a clause.Limit", f.Body.Pos(), "AddClause(clause.Limit{..}) on every path, no direct write of Clauses", "(*DB)."+name+" has a path that does not merge a clause.Limit, or writes Statement.Clauses directly: cancelling one of LIMIT/OFFSET with a negative value removes the other one too")
+	}
+}
+
+// C17.compile-purge: compile drops the remove markers (and the entries they remove) from the processor's list, so
+// that a name removed once can be registered again.  Decided on the CFG of compile: the list stored into
+// p.callbacks is stored AFTER the purge - the call of removeCallbacks is not reachable from that store.
+func checkC17CompilePurge(c *Ctx) {
+	p := c.P
+	r := c.Rule("C17.compile-purge", "compile stores the PURGED list back into the processor (remove markers do not accumulate)", 1)
+	f := p.MethodDecl(pkgGorm, "processor", "compile")
+	c.Touch(f)
+	info := f.Pkg.TypesInfo
+	cbF := p.Field(p.Named(pkgGorm, "processor"), "callbacks")
+	purgeFn := p.FuncDecl(pkgGorm, "removeCallbacks").Obj
+	var store *ast.AssignStmt
+	var purge *ast.CallExpr
+	ast.Inspect(f.Body, func(n ast.Node) bool {
+		switch x := n.(type) {
+		case *ast.AssignStmt:
+			for _, l := range x.Lhs {
+				if sel, ok := unparen(l).(*ast.SelectorExpr); ok && fieldSel(info, sel, cbF) {
+					store = x
+				}
+			}
+		case *ast.CallExpr:
+			if fn, _ := typeutil.Callee(info, x).(*types.Func); fn == purgeFn {
+				purge = x
+			}
+		}
+		return true
+	})
+	if store == nil || purge == nil {
+		r.Bad(f.Name(), "purge / store", f.Body.Pos(), "compile no longer purges removed callbacks or no longer stores the list back; rule lost its anchor")
+		return
+	}
+	gs := p.Guards(f, nil)
+	after := gs.Reaches(store.Pos(), func(n ast.Node) bool { return containsNode(n, purge) })
+	before := gs.Reaches(purge.Pos(), func(n ast.Node) bool { return n == ast.Node(store) || containsNode(n, store) })
+	r.Check(before && !after, f.Name(), "list stored back after the purge", store.Pos(), "the purged list", "compile stores the processor's list back before the removed callbacks are purged from it: the remove marker stays in the list for ever, and a later Register/Replace of that name is purged again at once - it returns nil and the callback never runs")
+}
+
+// C20.column-passthrough: AutoMigrate decides what exists by comparing what the database reports (migrator.ColumnType
+// accessors) with the schema's names and types.  The accessors hand the reported values on unchanged: every
+// returned expression is a field of one of the receiver's `...Value` members, a constant, or the result of the same
+// accessor of the wrapped driver column type - no other call is applied to them.
+func checkC20ColumnPassthrough(c *Ctx) {
+	p := c.P
+	r := c.Rule("C20.column-passthrough", "migrator.ColumnType accessors return the reported values unchanged", 8)
+	ctT := p.Named(pkgMigrator, "ColumnType")
+	for i := 0; i < ctT.NumMethods(); i++ {
+		f := p.SrcOpt(ctT.Method(i))
+		if f == nil || f.Body == nil {
+			continue
+		}
+		info := f.Pkg.TypesInfo
+		recv := recvName(f)
+		bad := ""
+		ast.Inspect(f.Body, func(n ast.Node) bool {
+			rs, ok := n.(*ast.ReturnStmt)
+			if !ok {
+				return true
+			}
+			for _, res := range rs.Results {
+				ast.Inspect(res, func(m ast.Node) bool {
+					ce, ok := m.(*ast.CallExpr)
+					if !ok {
+						return true
+					}
+					// forwarding to the wrapped column type
+					if sel, ok := ce.Fun.(*ast.SelectorExpr); ok && strings.HasPrefix(canon(info, sel.X), recv+".") && sel.Sel.Name == f.Decl.Name.Name && len(ce.Args) == 0 {
+						return false
+					}
+					// conversions
+					if tv, ok := info.Types[ce.Fun]; ok && tv.IsType() {
+						return true
+					}
+					bad = types.ExprString(ce.Fun)
+					return false
+				})
+			}
+			return true
+		})
+		c.Touch(f)
+		r.Check(bad == "", f.Name(), "reported value handed on", f.Body.Pos(), "unchanged", "the accessor passes what the database reported through "+bad+"(...) before returning it: AutoMigrate compares it with the schema's own spelling (e.g. exact column names) - an existing column then looks missing, is added again and the migration fails or never converges")
+	}
+}
+
+// C16.block-keeps-chain: a chain such as db.Clauses(OnConflict{..}).Session(&Session{CreateBatchSize: n}).Create(rows)
+// runs its batches inside Transaction(fc); the handle the block receives is built in two sibling places - the nested
+// arm of Transaction and Begin (top-level arm).  It must still carry the chain's statement (its ON CONFLICT rule,
+// Select/Omit, Table) unless the receiver is a root handle.  Decided: both places pass a Session literal whose NewDB
+// is the same expression over the receiver's clone state, and that expression is not a constant.
+func checkC16BlockKeepsChain(c *Ctx, r *Rule) {
+	p := c.P
+	sessT := p.Named(pkgGorm, "Session")
+	type site struct {
+		f   *FuncSrc
+		val string
+		pos token.Pos
+		cst bool
+	}
+	var sites []site
+	for _, name := range []string{"Transaction", "Begin"} {
+		f := p.MethodDecl(pkgGorm, "DB", name)
+		c.Touch(f)
+		info := f.Pkg.TypesInfo
+		recv := recvName(f)
+		for _, lit := range litsOfType(info, f.Body, sessT, true) {
+			v := compositeField(lit, "NewDB")
+			if v == nil {
+				continue
+			}
+			_, isConst := constBool(info, v)
+			sites = append(sites, site{f, strings.ReplaceAll(canon(info, v), recv+".", "$recv."), lit.Pos(), isConst})
+		}
+	}
+	if len(sites) < 2 {
+		r.Bad("gorm.(*DB).Transaction", "block handle", token.NoPos, "the two places that build the handle of a transaction block (nested arm, Begin) no longer both decide NewDB; rule lost its anchor")
+		return
+	}
+	for _, s := range sites {
+		okv := !s.cst && s.val == sites[0].val
+		r.Check(okv, s.f.Name(), "statement of the block's handle", s.pos, "NewDB: "+s.val+" (a new statement only for a root handle)", "the handle a transaction block receives decides NewDB as `"+s.val+"` here and as `"+sites[0].val+"` in "+sites[0].f.Name()+" (or as a constant): the block loses the chain's statement - batched creates run without the chain's ON CONFLICT rule, Select/Omit and Table")
+	}
+}
